@@ -138,6 +138,14 @@ pub fn bitmap(types: &[u16]) -> Vec<u8> {
     out
 }
 
+static REJECTED: std::sync::Mutex<Vec<(String, u16, Vec<u8>, String)>> = std::sync::Mutex::new(Vec::new());
+
+/// Alphabet entries (tag, type, RFC RDATA, error) whose hand-written RFC octets the decoder refused
+/// during the last `rdata_alphabet` call.
+pub fn rejected_entries() -> Vec<(String, u16, Vec<u8>, String)> {
+    REJECTED.lock().unwrap().clone()
+}
+
 struct B {
     v: Vec<Entry>,
 }
@@ -149,8 +157,9 @@ impl B {
             (Some(b), _) => b.clone(),
             (None, Ok(d)) => d,
             (None, Err(e)) => {
-                eprintln!("MACHINERY-FAILURE alphabet entry {tag} (type {rtype}) is not accepted by the decoder: {e}");
-                std::process::exit(2);
+                // RFC-valid RDATA the decoder refuses: not usable as a value; C02 reports it as a violation
+                REJECTED.lock().unwrap().push((tag.to_string(), rtype, wire, e.to_string()));
+                return;
             }
         };
         self.v.push(Entry { tag: tag.to_string(), rtype, wire, built, value });
@@ -159,6 +168,7 @@ impl B {
 
 /// The RDATA alphabet. `thorough` adds further value shapes.
 pub fn rdata_alphabet(thorough: bool) -> Vec<Entry> {
+    REJECTED.lock().unwrap().clear();
     let mut b = B { v: vec![] };
     let t = thorough;
 
